@@ -507,6 +507,38 @@ package seccomp
 //@   use simJump(p0, R, x, A) when atJump(p0, x)
 //@   ensures run(R, ghost.apos[x], A) == runL(p0, x, A)
 
+// ---- S-lab on a program under construction (spec/47_prefix.smt2): how the outcome changes when an instruction is
+// appended or a label is placed; each by induction on the distance to the end.
+//@ macro sameBut1(p, q) = len(q.instructions) == len(p.instructions) + 1 && forall(j, 0, len(p.instructions), q.instructions[j] == p.instructions[j], trig(q.instructions[j]))
+//@ macro lastI(q) = q.instructions[len(q.instructions) - 1]
+//@ lemma runPStep(p0 Program, x int, A uint32)
+//@   ensures x == len(p0.instructions) && x >= 0 ==> runP(p0, x, A) == PFall(A)
+//@   ensures 0 <= x && x < len(p0.instructions) && isRet(p0.instructions[x]) ==> runP(p0, x, A) == PRet(unbox(p0.instructions[x], bpf.RetConstant).Val)
+//@   ensures 0 <= x && x < len(p0.instructions) && istype(p0.instructions[x], bpf.LoadAbsolute) ==> runP(p0, x, A) == runP(p0, x + 1, word(ev, unbox(p0.instructions[x], bpf.LoadAbsolute).Off))
+//@   ensures 0 <= x && x < len(p0.instructions) && istype(p0.instructions[x], bpf.JumpIf) && jidx(p0.jumps, x, 0) < len(p0.jumps) ==> runP(p0, x, A) == ite(destOf(p0.labels, jlab(p0, x, A), x) <= x, PPend(jlab(p0, x, A), A), runP(p0, destOf(p0.labels, jlab(p0, x, A), x), A))
+//@ macro jlab(p0, x, A) = ite(jtest(unbox(p0.instructions[x], bpf.JumpIf).Cond, A, unbox(p0.instructions[x], bpf.JumpIf).Val), p0.jumps[jidx(p0.jumps, x, 0)].trueLabel, p0.jumps[jidx(p0.jumps, x, 0)].falseLabel)
+// no position above x: the search returns len
+//@ lemma fiaNone(s []Index, x int, j int)
+//@   requires 0 <= j && j <= len(s) && forall(t, j, len(s), s[t] <= x)
+//@   decreases len(s) - j
+//@   use fiaNone(s, x, j + 1) when j < len(s)
+//@   ensures firstIdxAbove(s, x, j) == len(s)
+
+//@ macro atJ(p0, x) = x < len(p0.instructions) && istype(p0.instructions[x], bpf.JumpIf) && jidx(p0.jumps, x, 0) < len(p0.jumps)
+//@ macro atLd(p0, x) = x < len(p0.instructions) && istype(p0.instructions[x], bpf.LoadAbsolute)
+//@ macro ldA(p0, x) = word(ev, unbox(p0.instructions[x], bpf.LoadAbsolute).Off)
+//@ macro dst(p0, x, A) = destOf(p0.labels, jlab(p0, x, A), x)
+// a finished run of the prefix semantics is a run of S-lab
+//@ lemma runLP(p0 Program, x int, A uint32)
+//@   requires riL(p0) && 0 <= x && x <= len(p0.instructions)
+//@   decreases len(p0.instructions) - x
+//@   opaque runL runP
+//@   use runLStep(p0, x, A)
+//@   use runPStep(p0, x, A)
+//@   use runLP(p0, x + 1, ldA(p0, x)) when atLd(p0, x)
+//@   use runLP(p0, dst(p0, x, A), A) when atJ(p0, x) && dst(p0, x, A) > x
+//@   ensures runL(p0, x, A) == stripP(runP(p0, x, A))
+
 // MT-fwd (meta-theory, DESIGN.md 3.3): the single-pass interpretation G that the builder primitives maintain equals the
 // label-level program run directly on the structure (S-lab). Trusted: a statement about label-level programs only
 // (no resolution, no bridges); paper proof by induction on the emission history. Hypotheses that are not checked:
